@@ -142,6 +142,7 @@ type FnCtx struct {
 	oldState     *State // pre-state for two-state postcondition predicates
 	curLatch     string
 	isGhostTop   int
+	curState     *State
 	loopAssume   []loopAssumption
 }
 
